@@ -15,7 +15,7 @@ import time
 CONTRACT_PROPS = ["C15"]
 RULE = "all orderings (length <= 3 quick / 4 thorough) of 9 operations on the actor tree, async engine; fixed scenarios on the sync engine; non-trivial = at least one message was delivered to a child"
 BOUND = "actor tree depth 3, fan-out 2, operation sequences <= 3/4"
-OPS = ["to_id", "to_sys", "to_key", "to_fn", "to_gk", "to_bad", "to_amb", "delayed", "cancel", "stop_w"]
+OPS = ["to_id", "to_sys", "to_key", "to_fn", "to_gk", "gk_to_sink", "to_bad", "to_amb", "delayed", "cancel", "stop_w"]
 
 
 def _machines(eng):
@@ -51,6 +51,7 @@ def _machines(eng):
                "to_key": {"actions": [send("worker", 4)]},
                "to_fn": {"actions": [send(lambda a: "wsys", 5)]},
                "to_gk": {"actions": [send("gksys", 6)]},
+               "gk_to_sink": {"actions": [{"type": "xstate.sendTo", "params": {"to": "gksys", "event": {"type": "TOSINK"}}}]},
                "to_bad": {"actions": [send("nobody", 7)]},
                "to_amb": {"actions": [send("sink", 8)]},
                "delayed": {"actions": [send("w1", 9, delay=30, id="d9"), send("w1", 10, delay=30, id="d10")]},
@@ -155,6 +156,8 @@ def post_check(case, res):
             exp += [("w1", 5)]
         if op == "to_gk" and alive(i):
             exp += [("g1", 6)]
+        if op == "gk_to_sink" and alive(i):
+            exp += [("s1", None)]       # the grandchild addresses a sibling branch by systemId
     # delayed sends: 9 unless cancelled before it fired (cancel comes at most 10-30 ms later: inside the delay), 10 always
     if "delayed" in ops and (stopped_at is None or ops.index("delayed") < stopped_at):
         d = ops.index("delayed")
